@@ -14,12 +14,6 @@ Lemma tensor_det_ok2 : tensor_det_stmt2.
 Proof. unfold tensor_det_stmt2. jac ltac:(unfold f_tensor_det2_l, f_tensor_det2, D_tensor_det2_l, D_tensor_det2) ltac:(idtac). Qed.
 Lemma tensor_det_ok3 : tensor_det_stmt3.
 Proof. unfold tensor_det_stmt3. jac ltac:(unfold f_tensor_det3_l, f_tensor_det3, D_tensor_det3_l, D_tensor_det3) ltac:(idtac). Qed.
-Lemma tensor_det2_ok1 : tensor_det2_stmt1.
-Proof. unfold tensor_det2_stmt1. jac ltac:(unfold f_tensor_det21_l, f_tensor_det21, D_tensor_det21_l, D_tensor_det21) ltac:(idtac). Qed.
-Lemma tensor_det2_ok2 : tensor_det2_stmt2.
-Proof. unfold tensor_det2_stmt2. jac ltac:(unfold f_tensor_det22_l, f_tensor_det22, D_tensor_det22_l, D_tensor_det22) ltac:(idtac). Qed.
-Lemma tensor_det2_ok3 : tensor_det2_stmt3.
-Proof. unfold tensor_det2_stmt3. jac ltac:(unfold f_tensor_det23_l, f_tensor_det23, D_tensor_det23_l, D_tensor_det23) ltac:(idtac). Qed.
 Lemma dCdF_ok1 : dCdF_stmt1.
 Proof. unfold dCdF_stmt1. jac ltac:(unfold f_dCdF1_l, f_dCdF1, D_dCdF1_l, D_dCdF1) ltac:(idtac). Qed.
 Lemma dCdF_ok2 : dCdF_stmt2.
